@@ -51,9 +51,68 @@ SEQS = {
 SCHEDULES = ['always-consistent', 'force-after-every-edit', 'query-after-every-edit', 'force-before-last-edit', 'write-in-the-middle', 'write-twice']
 
 
+def random_seq(name):
+    """'random:<flavour>:<seed>': a random edit history of contracts/fidelity.py as (image keyword arguments, operations)"""
+    from contracts import fidelity as F
+    kw, script = F.get_script(name)
+    ops = []
+    for op in script:
+        if op[0] == 'file':
+            k = dict(iso_path=op[1])
+            if op[2] is not None:
+                k['rr_name'] = op[2]
+            if op[3] is not None:
+                k['joliet_path'] = op[3]
+            ops.append(('add_fp', ['FILE:' + ('%d' % len(ops)).ljust(op[4], 'x')[:op[4]], op[4]], k))
+        elif op[0] == 'dir':
+            k = dict(iso_path=op[1])
+            if op[2] is not None:
+                k['rr_name'] = op[2]
+            if op[3] is not None:
+                k['joliet_path'] = op[3]
+            ops.append(('add_directory', [], k))
+        elif op[0] == 'rm_file':
+            ops.append(('rm_file', [], dict(iso_path=op[1], **({'joliet_path': op[2]} if op[2] else {}))))
+        elif op[0] == 'rm_dir':
+            ops.append(('rm_directory', [], dict(iso_path=op[1], **({'joliet_path': op[2]} if op[2] else {}))))
+        elif op[0] == 'link':
+            ops.append(('add_hard_link', [], dict(iso_old_path=op[1], iso_new_path=op[2], **({'rr_name': op[3]} if len(op) > 3 else {}))))
+        elif op[0] == 'jlink':
+            ops.append(('add_hard_link', [], dict(iso_old_path=op[1], joliet_new_path=op[2])))
+        elif op[0] == 'rm_link':
+            ops.append(('rm_hard_link', [], dict(iso_path=op[1])))
+        elif op[0] == 'rm_jlink':
+            ops.append(('rm_hard_link', [], dict(joliet_path=op[1])))
+        elif op[0] == 'symlink':
+            ops.append(('add_symlink', [], dict(symlink_path=op[1], rr_symlink_name=op[2], rr_path=op[3])))
+        elif op[0] == 'hide':
+            ops.append(('set_hidden', [], dict(iso_path=op[1])))
+    return kw, ops
+
+
+def get_seq(name):
+    return random_seq(name) if name.startswith('random:') else SEQS[name]
+
+
 def apply_ops(c, iso, ops, schedule):
     n = len(ops)
+    rnd = None
+    if schedule.startswith('random:'):
+        import random
+        rnd = random.Random(schedule)
     for i, (method, args, kwargs) in enumerate(ops):
+        if rnd is not None:
+            # a random action before the edit: nothing, force, query, walk, write
+            act = rnd.choice(['none', 'none', 'force', 'query', 'walk', 'write'])
+            if act == 'force':
+                S.call(c, iso, 'force_consistency')
+            elif act == 'query':
+                S.call(c, iso, 'get_record', iso_path='/')
+            elif act == 'walk':
+                for _ in S.call(c, iso, 'list_children', iso_path='/'):
+                    pass
+            elif act == 'write':
+                S.written(c, iso)
         if schedule == 'force-before-last-edit' and i == n - 1:
             S.call(c, iso, 'force_consistency')
         args = [S.data_file(c, (S.BOOT if x == 'FILE:BOOT' else x[5:].encode())) if isinstance(x, str) and x.startswith('FILE:') else x for x in args]
@@ -81,7 +140,7 @@ class ScheduleIndependent(Base):
     def setup(self, c):
         S.pin_environment(c)
         a = c.a
-        kw, ops = SEQS[self.seq]
+        kw, ops = get_seq(self.seq)
         a.lazy = S.new_image(c, **kw)
         apply_ops(c, a.lazy, ops, 'lazy')
         a.want = S.written(c, a.lazy)
